@@ -390,6 +390,9 @@ fn prop(c: &Case) -> Verdict {
                     return Verdict::fail("unix-value", format!("{text:?} -> {}", show_time(&t)));
                 }
                 let digits = text.trim_start_matches('+');
+                if text.trim().starts_with('+') {
+                    return Verdict::fail("epoch-seconds-with-plus-sign", format!("{text:?}: git's approxidate does not read a number with an explicit plus sign as a timestamp"));
+                }
                 if digits.len() < 9 || secs < 100000000 {
                     return Verdict::fail("epoch-seconds-under-9-digits", format!("{text:?}: git's approxidate does not read this as a timestamp"));
                 }
@@ -417,7 +420,10 @@ fn prop(c: &Case) -> Verdict {
                 if off != o || (t.sign == Sign::Minus) != (b[0] == b'-') {
                     return Verdict::fail("raw-value", format!("{text:?} -> {}", show_time(&t)));
                 }
-                if toks[0].trim_start_matches('+').len() < 9 || secs < 100000000 {
+                if toks[0].starts_with('+') {
+                    return Verdict::fail("epoch-seconds-with-plus-sign", format!("{text:?}: git's approxidate does not read a number with an explicit plus sign as a timestamp"));
+                }
+                if toks[0].len() < 9 || secs < 100000000 {
                     return Verdict::fail("epoch-seconds-under-9-digits", format!("{text:?}: git's approxidate does not read this as a timestamp"));
                 }
                 if secs <= 4102444799 && hh < 24 && mm % 15 == 0 && mm < 60 && text.is_ascii() && fnv(c) % 8 == 0 {
@@ -451,13 +457,29 @@ fn prop(c: &Case) -> Verdict {
             let hm = format!(":{:02}", sod % 3600 / 60);
             let monname = MON[(m - 1) as usize].to_ascii_lowercase();
             let lower = text.to_ascii_lowercase();
-            let has_mon = lower.contains(&monname) || lower.contains(&format!("-{:02}-", m));
+            let has_mon = lower.contains(&monname) || lower.contains(&format!("-{:02}-", m)) || lower.contains(&format!("-{}-", m));
             let _ = &hm;
             if !has_mon {
                 return Verdict::fail("civil-fields", format!("{text:?} -> {} = {y}-{m}-{d} {hm}", show_time(&t)));
             }
-            if toks.iter().any(|t| t.len() == 3 && t.bytes().all(|b| b.is_ascii_digit())) && lower.contains(&monname) {
-                return Verdict::fail("rfc2822-three-digit-year", format!("{text:?}: jiff reads a 3-digit year as 1900+n (RFC 2822 obsolete form), git ignores it and uses the current year"));
+            // obsolete RFC 2822 years: the token after the month name has two or three digits
+            if let Some(i) = toks.iter().position(|t| t.to_ascii_lowercase() == monname) {
+                if let Some(y) = toks.get(i + 1) {
+                    if (y.len() == 2 || y.len() == 3) && y.bytes().all(|b| b.is_ascii_digit()) && toks[0].ends_with(',') | toks[0].bytes().all(|b| b.is_ascii_digit()) {
+                        return Verdict::fail("rfc2822-short-year", format!("{text:?}: jiff reads 2/3-digit years as RFC 2822 says (00-49 -> 20xx, else 19xx); git's approxidate guesses differently (drops the zone, or takes the current year)"));
+                    }
+                }
+            }
+            // a blank in a strptime format matches ZERO or more blanks: run-together fields are accepted
+            let expected_tokens = if toks[0].bytes().next().map_or(false, |b| b.is_ascii_alphabetic()) && !toks[0].contains(',') {
+                6
+            } else if toks[0].contains('-') && !toks[0].contains('T') && !toks[0].contains('t') {
+                3
+            } else {
+                0
+            };
+            if toks.len() < expected_tokens {
+                return Verdict::fail("missing-whitespace-accepted", format!("{text:?}: fields run together are accepted (a blank in jiff's strptime format matches zero blanks); git reads something else"));
             }
             if text.contains(":60") {
                 return Verdict::fail("second-60-clamped", format!("{text:?}: git adds the 60th second, gix (jiff) clamps to 59"));
